@@ -17,20 +17,25 @@ from common import Broken, Violation
 
 MANIFEST = {
     "text": "Coq theorems about a hand-written executable model of Filter._check_property/_check_filter/"
-            "apply_common_filters/FilterSet and of the filesystem optimiser (AuthSet, _update_allow, "
-            "_find_search_optimizations, _get_matching_dir_entries, versioned/unversioned search): for every filter "
-            "list and every directory tree satisfying the layout invariant the optimised query returns, up to "
-            "permutation, exactly the objects on which every filter holds (and never raises unless the scan does); "
-            "adding a filter only shrinks; a conjunction is the intersection; attached and composite-passed filters "
-            "reach the same evaluation; each operator equals its stated meaning. Tied to the code by a correspondence "
-            "run through MemorySource, FileSystemSource and CompositeDataSource.",
+            "apply_common_filters/FilterSet, of the filesystem optimiser (AuthSet, _update_allow with CPython's lazy "
+            "intersection_update, _find_search_optimizations, _get_matching_dir_entries, versioned/unversioned search) and "
+            "of MemorySource/FileSystemSource/CompositeDataSource query and all_versions: for every filter list and every "
+            "directory tree satisfying the layout invariant the optimised query returns, up to permutation, exactly the "
+            "objects of an unfiltered scan on which every filter holds, and raises only if that scan raises "
+            "(opt_sound_complete, opt_raises_only_if_scan_does; the invariant holds after every history of sink adds); "
+            "adding a filter only shrinks; a conjunction is the intersection; attached and composite-passed filters reach "
+            "the same evaluation and hold for every answer; closed forms of the operators; timestamps as instants. Tied "
+            "to the code by a correspondence run (query and all_versions through MemorySource, FileSystemSource, "
+            "CompositeDataSource) and a reference-evaluation oracle on every generated case.",
     "design_ref": "DESIGN.md 6/C12, Appendix A.2",
-    "note": "Trusted: Coq kernel + vm_compute, the hand-written model (checked against the implementation on every run), "
-            "the harness generator/reference evaluation. The filesystem is a finite map from names to entries; "
+    "note": "Trusted: Coq kernel + vm_compute, the hand-written model (compared with the implementation on every run), "
+            "the harness generator / reference evaluation. The filesystem is a finite map from names to entries; "
             "`parse` is not modelled (a file is the value parse returns for it; the harness checks what the stores hold "
-            "against what it generated). Hypotheses visible in the statements: layout invariant (object under its own "
-            "type/id, id prefix = type, id directories named <type>--<uuid>), type/id filter values are strings / lists "
-            "of strings. Known deviations outside those hypotheses are listed in known_findings.d/C12.json.",
+            "against what it generated). Hypotheses visible in the statements: layout invariant Inv (names distinct, "
+            "object under its own type / id, id prefix = type); tyid_wf (type / id filter values are strings / lists of "
+            "strings) only for the variant OptAnyValue of the code before fix 4d5628c -- none for the code as it is now; "
+            "no_fuzzy_dups (no two filters differing only in the spelling of a number) for the FilterSet theorems. "
+            "Variants detected at run time: ts_mode (TextOnDicts = known finding C12-dict-timestamp-text), opt_mode.",
     "technique": "Coq proof over a hand-written model + correspondence run + reference-evaluation oracle",
 }
 
@@ -1222,12 +1227,16 @@ def check(run):
         "file/ipv4-addr SCOs and marking definitions in the unversioned layout, unregistered custom dictionaries with and "
         "without `modified`; one population in eight deliberately breaks the layout hypotheses: id prefix != type, "
         "non-UUID ids) x filter lists of 0-9 filters (type/id filters =,!=,in with existing / other-type / unknown / "
-        "repeated / contradictory values; every operator on every property kind found in the population with hit / "
+        "repeated / contradictory values, and -- one list in ten -- strings given to `in`, numbers, lists with a "
+        "non-string member, dict values; every operator on every property kind found in the population with hit / "
         "near-miss / wrong-kind values; dotted paths; timestamp strings in several spellings and datetime values) "
         "delivered as query argument, attached, or composite-passed; each query runs on MemorySource(objects), "
-        "MemorySource(dicts), FileSystemSource and a two-member composite and is compared with the model (memory: "
-        "exact order; filesystem: multiset) and with the reference evaluation. Non-trivial = non-empty population "
-        "and at least one filter.")
+        "MemorySource(dicts), FileSystemSource (each also wrapped in a CompositeDataSource) and a two-member composite "
+        "[memory, filesystem]; per population up to 6 get/all_versions lookups with attached and composite filters run "
+        "on memory, filesystem, each wrapped in a composite, and the two-member composite. Every answer is compared "
+        "with the model (memory: exact order; filesystem: multiset / exception class) and with the reference "
+        "evaluation (timestamps as instants); conjunction = intersection and monotonicity are checked on the "
+        "implementation's own answers for triples (A, B, A+B). Non-trivial = non-empty population and at least one filter.")
     with common.Lock():
         res = common.build_props("Props/C12.v")
         run.add_build(res, "make -C coq Props/C12.vo (coqc 8.16.1, full .vo) + Print Assumptions per theorem")
@@ -1330,12 +1339,21 @@ def check(run):
         "harness reference evaluation (Python ==, <, in on canonical values; timestamps as instants)",
     ]
     run.assumptions += [
-        "file and directory names contain no '/', NUL, and are not '', '.' or '..' (os.path.join / stat are a finite-map lookup)",
+        "file and directory names contain no '/', NUL, and are not '', '.' or '..' (os.path.join / stat are a finite-map lookup); "
+        "the same for string values of type / id filters",
         "floats are dyadic rationals k/1024 (exact doubles); no NaN/inf",
         "timestamp strings are in the canonical spelling or clearly invalid (strptime's one-digit leniency is not modelled)",
         "one (id, modified instant) is stored once per population (overwrite/refusal behaviour is C11's subject)",
-        "the reference evaluation leaves `in` / `contains` on timestamp-valued properties undefined",
+        "the reference evaluation leaves `in` / `contains` on timestamp-valued properties, and every (value, operator, value) "
+        "combination Python refuses to compare, undefined (no verdict; the model is still compared)",
+        "layout hypothesis of opt_sound_complete: an object's id starts with its own type and id directories are named "
+        "<type>--<uuid>; populations that break it (unregistered custom dictionaries only) are generated, compared with the "
+        "model, counted in coverage.oracle.outside_layout_hypothesis, and not judged by the oracle",
+        "get(): only the clause 'the answer satisfies every attached / composite filter' is judged; which version get() picks is C11's subject",
     ]
+    ops = [r.get("filter_ops") for r in impl if r.get("filter_ops")]
+    if ops and ops[0] != OPS:
+        run.broken.append(Broken("correspondence", "stix2.datastore.filters.FILTER_OPS is %s, the model has %s" % (ops[0], OPS), {}))
 
 
 def replay(payload):
